@@ -352,3 +352,159 @@ func init() {
 			return Case{Input: c.toInput(), Obs: obs, Tags: tags, Nontrivial: nt}
 		}})
 }
+
+// ---- typed upcasters ----
+type TY1 struct {
+	X    int
+	Note int            `json:",omitempty"`
+	Tags map[string]int `json:",omitempty"`
+}
+type TY2 TY1
+type TY3 TY1
+
+type tpl struct {
+	bad  bool
+	x    int
+	note int
+	tags [][2]int
+}
+
+func (p tpl) term() T {
+	ts := []T{}
+	for _, t := range p.tags {
+		ts = append(ts, Tup(Nat(t[0]), Nat(t[1])))
+	}
+	return C("Build_pl", B(p.bad), Nat(p.x), Nat(p.note), L(ts...))
+}
+func (p tpl) render() []byte {
+	if p.bad {
+		return []byte(`{"X":"str"}`)
+	}
+	v := TY1{X: p.x, Note: p.note}
+	if len(p.tags) > 0 {
+		v.Tags = map[string]int{}
+		for _, t := range p.tags {
+			v.Tags["k"+strconv.Itoa(t[0])] = t[1]
+		}
+	}
+	b, _ := json.Marshal(v)
+	return b
+}
+func tplOf(data []byte) tpl {
+	var v TY1
+	if json.Unmarshal(data, &v) != nil {
+		return tpl{bad: true}
+	}
+	p := tpl{x: v.X, note: v.Note}
+	if v.X < 0 || v.X > 4000 {
+		p.x = 4999
+	}
+	keys := []int{}
+	for k := range v.Tags {
+		n, _ := strconv.Atoi(strings.TrimPrefix(k, "k"))
+		keys = append(keys, n)
+	}
+	sortInts(keys)
+	for _, k := range keys {
+		p.tags = append(p.tags, [2]int{k, v.Tags["k"+strconv.Itoa(k)]})
+	}
+	return p
+}
+func sortInts(a []int) {
+	for i := 1; i < len(a); i++ {
+		for j := i; j > 0 && a[j] < a[j-1]; j-- {
+			a[j], a[j-1] = a[j-1], a[j]
+		}
+	}
+}
+
+func tyName(s string) int {
+	switch s {
+	case "main.TY1":
+		return 1
+	case "main.TY2":
+		return 2
+	case "main.TY3":
+		return 3
+	}
+	return 99
+}
+
+func runTyped(rng *rand.Rand, idx int, tier string) Case {
+	regs := [][3]int{{1, 2, 1}, {2, 3, 2}, {1, 3, 3}}
+	rng.Shuffle(len(regs), func(i, j int) { regs[i], regs[j] = regs[j], regs[i] })
+	regs = regs[:1+rng.Intn(3)]
+	n := 2 + rng.Intn(6)
+	type ev struct {
+		ty int
+		p  tpl
+	}
+	var log []ev
+	for i := 0; i < n; i++ {
+		p := tpl{x: rng.Intn(20)}
+		if rng.Intn(2) == 0 {
+			p.note = 1 + rng.Intn(9)
+		}
+		for k := 1; k <= 3; k++ {
+			if rng.Intn(3) == 0 {
+				p.tags = append(p.tags, [2]int{k, rng.Intn(9)})
+			}
+		}
+		if rng.Intn(12) == 0 {
+			p = tpl{bad: true}
+		}
+		log = append(log, ev{1 + rng.Intn(3), p})
+	}
+	if idx == 0 { // directed: later payload omits what an earlier one set
+		regs = [][3]int{{1, 2, 1}, {2, 3, 2}}
+		log = []ev{{1, tpl{x: 1, note: 5, tags: [][2]int{{1, 1}, {2, 2}}}}, {1, tpl{x: 2}}, {1, tpl{x: 3, tags: [][2]int{{3, 3}}}}}
+	}
+	store := eb.NewMemoryStore()
+	bus := eb.New(eb.WithStore(store))
+	for _, r := range regs {
+		var err error
+		switch r[2] {
+		case 1:
+			err = eb.RegisterUpcast(bus, func(a TY1) TY2 { a.X++; return TY2(a) })
+		case 2:
+			err = eb.RegisterUpcast(bus, func(a TY2) TY3 { a.X *= 2; return TY3(a) })
+		case 3:
+			err = eb.RegisterUpcast(bus, func(a TY1) TY3 { a.X += 100; return TY3(a) })
+		}
+		if err != nil {
+			panic(err)
+		}
+	}
+	names := []string{"", "main.TY1", "main.TY2", "main.TY3"}
+	for _, e := range log {
+		store.Append(context.Background(), &eb.Event{Type: names[e.ty], Data: e.p.render()})
+	}
+	seen := []T{}
+	changed := false
+	i := 0
+	bus.ReplayWithUpcast(context.Background(), eb.OffsetOldest, func(ev *eb.StoredEvent) error {
+		seen = append(seen, Tup(Nat(tyName(ev.Type)), tplOf(ev.Data).term()))
+		if tyName(ev.Type) != log[i].ty {
+			changed = true
+		}
+		i++
+		return nil
+	})
+	rt := []T{}
+	for _, r := range regs {
+		rt = append(rt, Tup(Nat(r[0]), Nat(r[1]), Nat(r[2])))
+	}
+	lt := []T{}
+	for _, e := range log {
+		lt = append(lt, Tup(Nat(e.ty), e.p.term()))
+	}
+	tags := []string{}
+	if changed {
+		tags = append(tags, "upcasted")
+	}
+	return Case{Input: C("Build_tinput", L(rt...), L(lt...)), Obs: L(seen...), Tags: tags, Nontrivial: changed}
+}
+
+func init() {
+	register(&Family{Name: "upcasttyped", Quick: 200, Thorough: 3000, Directed: 1, Run: runTyped})
+}
